@@ -227,6 +227,8 @@ class Client(object):
 def leftovers(st, base, after_close=False):
     """compare a state sample with the baseline: -> list of (key suffix, text)"""
     out = []
+    # a server that has closed itself (its accept loop ended on an error it does not survive) is judged as closed
+    after_close = after_close or bool(st.get("closed"))
     allowed = base["fds"] - (1 if after_close and st.get("listener_fd", -1) < 0 else 0)
     if st["fds"] > allowed:
         out.append(("fd-leak", "%d descriptors open (%d sockets), baseline %d%s" % (
